@@ -6,8 +6,9 @@ Driver for C10.  One op line per case (integer tokens):
       -> budget <milli>
   policy <k> <n> (<cpu> <core> <socket> <node>)*
       -> cpus <c>*                      (order of the returned slice)
-  cpuset <budgetMilli> <nOld> <old>* <n> (<cpu> <core> <socket> <node>)* <np> (<valid> <qos> <m> <cpu>*)* <nr> <reserved>* <ns> <sysExclusive>*
-      -> set <c>*  (content of the BE cpuset afterwards, ascending)  |  panic
+  cpuset <budgetMilli> <nOld> <old>* <n> (<cpu> <core> <socket> <node>)* <np> (<annoKind> <qos> <life> <m> <cpu>*)* <nr> <reserved>* <ns> <sysExclusive>* <topoNil> <kubeletPolicy>
+      -> set <c>* / pod <c>* / cont <c>*  (BE root, pod-level and container-level cpuset afterwards, ascending)
+         beset <c>* | beset err       (calcBECPUSet on the same inputs)            |  panic
   quota <budgetMilli> <cur> <capMilli>
       -> quota <q>                      (content of cpu.cfs_quota_us afterwards)
 The float parameters are Lean runtime `Float` (IEEE binary64 as Go's float64).
@@ -43,17 +44,17 @@ def toProc : List Int → Option Proc
   | [a, b, c, d] => some { cpu := a, core := b, socket := c, node := d }
   | _ => none
 
-/-- `<np> (<valid> <qos> <m> <cpu>*)*` -/
+/-- `<np> (<kind> <qos> <life> <m> <cpu>*)*` -/
 def takePods : Nat → List Int → Option (List PodC × List Int)
   | 0, xs => some ([], xs)
-  | k + 1, v :: q :: m :: rest =>
+  | k + 1, v :: q :: l :: m :: rest =>
     if m < 0 then none else
     match takeN m.toNat rest with
     | none => none
     | some (cs, rest') =>
       match takePods k rest' with
       | none => none
-      | some (ps, r) => some ({ valid := v ≠ 0, qos := q, cpus := cs } :: ps, r)
+      | some (ps, r) => some ({ valid := annoValid v cs, qos := q, cpus := cs, life := l } :: ps, r)
   | _, _ => none
 
 def sortDedup (xs : List Int) : List Int := (isortBy (fun a b => decide (a < b)) xs).eraseDups
@@ -108,12 +109,15 @@ def runCpuset (xs : List Int) : List String :=
             | none => ["bad-op"]
             | some (res, rest5) =>
               match takeRecs 1 rest5 with
-              | some (sys, []) =>
+              | some (sys, [topoNil, kp]) =>
                 let oldSet := sortDedup old
-                match adjustCPUSet floatOps b oldSet.length (prs.filterMap toProc) pods res.flatten sys.flatten with
-                | .panic => ["panic"]
-                | .untouched => [showList "set" oldSet]
-                | .write cs => [showList "set" (sortDedup cs)]
+                let procs := prs.filterMap toProc
+                let lvl (w : Option (List Int)) : List Int := match w with | none => oldSet | some cs => sortDedup cs
+                let be := if topoNil ≠ 0 then "beset err"
+                  else showList "beset" (sortDedup (calcBESet procs pods res.flatten sys.flatten))
+                match adjustFull floatOps kp (topoNil ≠ 0) b oldSet.length procs pods res.flatten sys.flatten with
+                | none => ["panic"]
+                | some w => [showList "set" (lvl w.root), showList "pod" (lvl w.pod), showList "cont" (lvl w.cont), be]
               | _ => ["bad-op"]
         | _ => ["bad-op"]
   | _ => ["bad-op"]
